@@ -7,7 +7,7 @@ PID = "C13"
 PROPS_MODULE = "Props.C13"
 THEOREMS = ["series_dispatch_correct", "plot_dispatch_correct", "csv_dispatch_correct", "plot_labels", "tables_same_keys",
             "linspace_endpoints"]
-EXTRA_PROPS = {"Props.C13b": ["series_column_values", "series_column_order", "time_series_pointwise", "time_series_example", "series_misaligned_without_it"]}
+EXTRA_PROPS = {"Props.C13b": ["series_column_values", "series_column_order", "time_series_pointwise", "time_series_example", "series_misaligned_without_it", "plot_curves_pointwise", "plot_curves_defined", "plot_curves_example"]}
 REQUIRED = ["Props/C13.v", "Props/C13b.v", "Model/Series.v", "Model/SeriesAsm.v"]
 TRANSLATORS = ["tr_pure", "tr_tables"]
 SHAPE_KEYS = ["decay_time_series", "AbstractInventory::plot", "InventoryHP::plot", "decay_graph", "Inventory::decay", "InventoryHP::decay"]
